@@ -574,6 +574,11 @@ class Explorer:
                 return self
             prefix = self.frontier.pop()
             self._one(prefix)
+            if sum(1 for f in self.findings if f[0] == "violation") >= 3:
+                # an unlisted, reproduced violation is already in hand: further paths of this unit add nothing
+                # (and a change that leaks state between runs can make them arbitrarily slow)
+                st.inconclusive_note = "stopped after 3 violations"
+                return self
             if len(st.inconclusive) >= 20:
                 st.inconclusive.append(f"{self.unit}: exploration stopped after 20 inconclusive paths")
                 return self
